@@ -23,6 +23,15 @@ def parseAttr (t : String) : Option AddrAttr :=
   else if t.startsWith "n:" then (Tok.unhex (t.drop 2).toString).map .networkTag
   else none
 
+def showAttr : AddrAttr → String
+  | .addrDistr .bootstrapEra => "d1"
+  | .addrDistr (.singleKey h) => "d0:" ++ Tok.hex h
+  | .derivationPath b => "p:" ++ Tok.hex b
+  | .networkTag b => "n:" ++ Tok.hex b
+
+def showPayload (p : AddressPayload) : String :=
+  " ".intercalate ([Tok.hex p.root, toString p.addrtype] ++ p.attributes.map showAttr)
+
 def parseAttrs : List String → Option (List AddrAttr)
   | [] => some []
   | t :: ts => match parseAttr t, parseAttrs ts with
@@ -73,6 +82,10 @@ def step (_ : Unit) : List String → Unit × String
     | none => ((), "bad-op")
   | ["frombase58", s] => ((), match fromBase58 s with | .ok a => "ok " ++ showAddr a | .error e => showErr e)
   | ["fromstr", s] => ((), fromStr s)
+  | ["decode", h] =>
+    match Tok.unhex h with
+    | some bs => ((), match (ByronAddress.mk bs 0).decode with | .ok p => "ok " ++ showPayload p | .error e => "err " ++ e.show)
+    | none => ((), "bad-op")
   | ["crc", h] =>
     match Tok.unhex h with
     | some bs => ((), "ok " ++ toString (crc32 bs))
